@@ -25,25 +25,27 @@ _SIMPLE = {0x07: "\\a", 0x08: "\\b", 0x1b: "\\e", 0x09: "\\t", 0x0a: "\\n", 0x0b
 
 
 def esc_bytes(data, style=0):
-    """Render bytes inside a non-raw string literal."""
+    """Render bytes inside a non-raw string literal.
+    style 0: readable; 1: three-digit octal escapes for non-printables; 2: \\xNN for everything;
+    3: three-digit octal for everything."""
     out = []
-    for i, b in enumerate(data):
-        c = bytes([b])
-        nxt = data[i + 1:i + 2]
+    for b in data:
         if b == 0x22:
             out.append('\\"')
         elif b == 0x5c:
             out.append("\\\\")
         elif b == 0x25:
             out.append("%%")
-        elif 0x20 <= b < 0x7f and style != 2:
+        elif style == 3:
+            out.append("\\%03o" % b)
+        elif style == 2:
+            out.append("\\x%02x" % b)
+        elif 0x20 <= b < 0x7f:
             out.append(chr(b))
-        elif b in _SIMPLE and style == 0:
+        elif style == 1:
+            out.append("\\%03o" % b)
+        elif b in _SIMPLE:
             out.append(_SIMPLE[b])
-        elif style == 1 and b < 0x100 and not (nxt and nxt in b"01234567"):
-            out.append("\\%o" % b if b < 0o400 else "\\x%02x" % b)
-            if len("%o" % b) < 3 and nxt and nxt in b"01234567":
-                out[-1] = "\\x%02x" % b
         else:
             out.append("\\x%02x" % b)
     return "".join(out)
@@ -86,12 +88,16 @@ class Renderer:
     def __init__(self, **opts):
         self.o = opts
         self.ntok = 0
+        self.in_splice = 0
 
     def sp(self):
         ws = self.o.get("ws")
         self.ntok += 1
         if ws:
-            return ws(self.ntok)
+            try:
+                return ws(self.ntok, self.in_splice)
+            except TypeError:
+                return ws(self.ntok)
         return " "
 
     def r(self, n):
@@ -128,20 +134,34 @@ class Renderer:
 
     def r_str(self, n):
         parts, raw = n[1], n[2]
-        out = []
+        chunks = []          # atomic pieces of the literal's body
         for p in parts:
             if isinstance(p, bytes):
                 if raw:
-                    out.append(p.decode("latin-1"))
+                    chunks.extend(chr(b) for b in p)
                 else:
-                    out.append(esc_bytes(p, self.o.get("escstyle", 0)))
+                    st = self.o.get("escstyle", 0)
+                    chunks.extend(esc_bytes(p[i:i + 1], st) for i in range(len(p)))
             else:
                 sug = splice_sugar(p) if self.o.get("sugar", True) else None
                 if sug:
-                    out.append(sug)
+                    chunks.append(sug)
                 else:
-                    out.append("%(" + self.sp() + self.r(p) + self.sp() + "%)")
-        body = "".join(out)
+                    self.in_splice += 1
+                    try:
+                        chunks.append("%(" + self.sp() + self.r(p) + self.sp() + "%)")
+                    finally:
+                        self.in_splice -= 1
+        split = self.o.get("split")
+        if split and not raw and len(chunks) > 1:
+            out = ""
+            for i, c in enumerate(chunks):
+                if i and split(i):
+                    out += '"\\' + self.o.get("splitws", " ") + '"'
+                out += c
+            body = out
+        else:
+            body = "".join(chunks)
         return ('r"' if raw else '"') + body + '"'
 
     def r_cat(self, n):
